@@ -50,7 +50,7 @@ theorem sessStep_fmt (tb : Tables) (pr : Char → Bool) (s : Sess) (id : Nat) (o
 
 theorem sessStep_mod (tb : Tables) (pr : Char → Bool) (s : Sess) (id : Nat) (o : Obj)
     (args : List Val) (h : s.find id = some o) :
-    (sessStep tb pr s (.mod id args)).2 = modCall tb o args := by
+    (sessStep tb pr s (.mod id args)).2 = modCall tb pr o args := by
   simp [sessStep, h]
 
 /-- **Per call: the result depends only on the template text and on this call's own values.**
@@ -160,7 +160,7 @@ theorem session_fmt_result (tb : Tables) (pr : Char → Bool) (pre post : List S
 theorem session_mod_result (tb : Tables) (pr : Char → Bool) (pre post : List SOp) (id : Nat)
     (args : List Val) (o : Obj) (h : lastNew tb pre id = some o) :
     (sessRun tb pr {} (pre ++ .mod id args :: post)).2[pre.length]? =
-      some (modCall tb o args) := by
+      some (modCall tb pr o args) := by
   have hf : (sessRun tb pr {} pre).1.find id = some o := by rw [sessRun_find, h]; rfl
   have hlen : ∀ (s : Sess) (l : List SOp), (sessRun tb pr s l).2.length = l.length := by
     intro s l; induction l generalizing s with
